@@ -505,6 +505,12 @@ pub fn bytes_zoo(f: &Fld, rng: &mut impl RngCore, nrand: usize) -> Vec<(Vec<u8>,
             }
         }
     }
+    // non-canonical aliases v + p that a folded (XOR-accumulated) word comparison confuses with v
+    for w in [64usize, 32] {
+        for a in fold_collision_aliases(p, n, w, rng, 12, 400) {
+            z.push((to_le(&a, n), "fold-collision alias"));
+        }
+    }
     z.push((to_le(&(b(1) << f.bits), n), "2^bits"));
     if f.bits < 8 * n {
         z.push((to_le(&((b(1) << f.bits) - b(1)), n), "2^bits-1"));
@@ -675,4 +681,100 @@ pub fn montgomery_limb_values(f: &Fld, rng: &mut impl RngCore, per_pos: usize) -
         }
     }
     out
+}
+
+/// Non-canonical aliases v + p (v < p, v + p < 2^(8*nbytes)) that a *folded* comparison cannot tell from
+/// their reduction: the XOR over all w-bit words of ((v+p) ^ v) is zero. A canonicity test of the form
+/// "reduce, then accumulate the word differences" only notices them if it accumulates with OR.
+/// With C the vector of carries of the addition v + p, (v+p) ^ v = p ^ C bit for bit, so the condition is
+/// "the words of C XOR to the XOR of the words of p"; where p_b = C_b the next carry is forced, elsewhere it
+/// is the (free) bit v_b. A DP over bit positions inside a word (state = carry bit of every word) finds all
+/// carry patterns; v is read off a random feasible path.
+pub fn fold_collision_aliases(p: &B, nbytes: usize, w: usize, rng: &mut impl RngCore, want: usize, max_tries: usize) -> Vec<B> {
+    let nbits = 8 * nbytes;
+    if nbits % w != 0 {
+        return vec![];
+    }
+    let nw = nbits / w;
+    if nw > 10 {
+        return vec![];
+    }
+    let nstates = 1usize << nw;
+    let pbit = |i: usize, j: usize| -> usize { p.bit((i * w + j) as u64) as usize };
+    // parity target per position
+    let f: Vec<usize> = (0..w).map(|j| (0..nw).fold(0, |acc, i| acc ^ pbit(i, j))).collect();
+    let parity = |c: usize| -> usize { (c.count_ones() & 1) as usize };
+    // allowed next states from state c at position j
+    let nexts = |c: usize, j: usize| -> Vec<usize> {
+        let mut out = vec![0usize];
+        for i in 0..nw {
+            let ci = (c >> i) & 1;
+            let forced = pbit(i, j) == ci;
+            let mut nxt = Vec::with_capacity(out.len() * 2);
+            for o in &out {
+                if forced {
+                    nxt.push(o | (pbit(i, j) << i));
+                } else {
+                    nxt.push(*o);
+                    nxt.push(o | (1 << i));
+                }
+            }
+            out = nxt;
+        }
+        out
+    };
+    let top = b(1) << nbits;
+    let mut found: Vec<B> = Vec::new();
+    // guesses of the carries into bit 0 of each word (word 0 gets none)
+    let mut guesses: Vec<usize> = (0..nstates).filter(|g| g & 1 == 0 && parity(*g) == f[0]).collect();
+    for tries in 0..max_tries {
+        if found.len() >= want || guesses.is_empty() {
+            break;
+        }
+        let g = guesses[tries % guesses.len()];
+        // end condition: carry out of word i equals the guessed carry into word i+1; no carry out of the top
+        let end_ok = |e: usize| -> bool { (0..nw).all(|i| ((e >> i) & 1) == if i + 1 < nw { (g >> (i + 1)) & 1 } else { 0 }) };
+        // backward feasibility
+        let mut feas = vec![vec![false; nstates]; w + 1];
+        for e in 0..nstates {
+            feas[w][e] = end_ok(e);
+        }
+        for j in (0..w).rev() {
+            for c in 0..nstates {
+                if parity(c) != f[j] {
+                    continue;
+                }
+                feas[j][c] = nexts(c, j).iter().any(|n| feas[j + 1][*n] && (j + 1 == w || parity(*n) == f[j + 1]));
+            }
+        }
+        if !feas[0][g] {
+            guesses.retain(|x| *x != g);
+            continue;
+        }
+        // random feasible path; read v off it
+        let mut c = g;
+        let mut v = b(0);
+        for j in 0..w {
+            let opts: Vec<usize> = nexts(c, j).into_iter().filter(|n| feas[j + 1][*n] && (j + 1 == w || parity(*n) == f[j + 1])).collect();
+            let n = opts[(rng.next_u64() % opts.len() as u64) as usize];
+            for i in 0..nw {
+                let ci = (c >> i) & 1;
+                let vb = if pbit(i, j) == ci { (rng.next_u64() & 1) as usize } else { (n >> i) & 1 };
+                if vb == 1 {
+                    v += b(1) << (i * w + j);
+                }
+            }
+            c = n;
+        }
+        if &v < p && &v + p < top {
+            // self-check of the construction
+            let d = (&v + p) ^ &v;
+            let mask = (b(1) << w) - b(1);
+            let fold = (0..nw).fold(b(0), |acc, i| acc ^ ((&d >> (i * w)) & &mask));
+            if fold == b(0) && !found.contains(&(&v + p)) {
+                found.push(&v + p);
+            }
+        }
+    }
+    found
 }
